@@ -107,7 +107,7 @@ func valClass(v []byte) string {
 
 func c14Run(c *h.Ctx) {
 	r := c.Rng("c14")
-	nPairs := c.Pick(12000, 600000)
+	nPairs := c.Pick(60000, 600000)
 	// --- laws on pairs and triples
 	for i := 0; i < nPairs; i++ {
 		id := fmt.Sprintf("law-%d", i)
@@ -128,7 +128,7 @@ func c14Run(c *h.Ctx) {
 		}
 	}
 	// --- URI round trip
-	nURI := c.Pick(12000, 600000)
+	nURI := c.Pick(60000, 600000)
 	for i := 0; i < nURI; i++ {
 		id := fmt.Sprintf("uri-%d", i)
 		n := gen.Name(r, 5, 10)
